@@ -1,3 +1,4 @@
+import re
 """C16 - MMR index arithmetic matches the explicit forest of perfect trees."""
 ID = "C16"
 GEN_TAGS = ["MmrIndexGen"]
@@ -15,7 +16,7 @@ TRUSTED = [
     "driven typing of `let x = <untyped literals>`) and coq/lib/Word.v semantics of Rust u64/u32/u128 operators, shifts, "
     "count_ones, leading_zeros, ilog2, pow",
     "extraction: ExtrOcamlBasic + ExtrOcamlZBigInt (positive, N, Z -> zarith) + one extra directive in coq/extract/ExtractC16.v "
-    "(Z.pow -> Big_int_Z.power_big_int_positive_big_int, 0 for a negative exponent), OCaml 4.13.1, zarith 1.12",
+    "(Z.pow -> Big_int_Z.power_big_int_positive_big_int, 0 for a negative exponent), OCaml 4.13.1, zarith 1.12; cross-checked on every run: a sample of single-call cases (25 per op quick, 120 thorough, all 15 ops) is evaluated by vm_compute INSIDE Coq (tools/vmcross.py: no extraction, no OCaml, no driver) and must print what the extracted oracle prints",
     "correspondence harness (harness/src/bin/c16.rs), oracle driver (ocaml/c16.ml), case generator (tools/props/c16.py)",
     "verified through the translator (theorems re-checked on regenerated definitions): left_child, right_child, "
     "leaf_index_to_mt_index_and_peak_index, right_lineage_length_from_leaf_index, leftmost_ancestor, leaf_index_to_node_index, "
@@ -239,3 +240,72 @@ def compare(case, impl, model):
             return None if impl.split(":", 1)[-1] == model[5:] else "implementation and model differ"
         return None if impl in model.split() else "implementation differs from the model's prediction for its build profile"
     return None if impl == model else "implementation and model/spec differ"
+
+
+# ------------------------------------------------------------------ extraction cross-check (Coq's VM against the oracle)
+VM_OPS = {  # harness / oracle op -> (Gallina function, arity, rendering)
+    "lchild": ("mm_left_child", 2, "opt"), "rchild": ("mm_right_child", 1, "opt"),
+    "lsib": ("mm_left_sibling", 2, "opt"), "rsib": ("mm_right_sibling", 2, "opt"),
+    "lmost": ("mm_leftmost_ancestor", 1, "opt"), "l2n": ("mm_leaf_index_to_node_index", 1, "opt"),
+    "rllleaf": ("mm_right_lineage_length_from_leaf_index", 1, "opt"),
+    "mtpk": ("mm_leaf_index_to_mt_index_and_peak_index", 2, "opt"), "nln": ("mm_num_leafs_to_num_nodes", 1, "opt"),
+    "rllh": ("mm_right_lineage_length_and_own_height", 1, "opt"),
+    "rlln": ("mm_right_lineage_length_from_node_index", 1, "opt"), "parent": ("mm_parent", 1, "opt"),
+    "n2l": ("mm_node_index_to_leaf_index", 1, "optopt"), "added": ("mm_node_indices_added_by_append", 1, "opt"),
+    "pheights": ("mm_get_peak_heights", 1, "opt"),
+}
+
+
+def extra_checks(ctx):
+    """A sample of single-call cases evaluated by `vm_compute` inside Coq (no extraction, no OCaml) must print what the
+    extracted, zarith-mapped oracle prints."""
+    import os
+    import random
+    import sys
+    sys.path.insert(0, os.path.join(os.path.dirname(os.path.abspath(__file__)), ".."))
+    import runner
+    import vmcross
+    info = {"vm_cross_check_sample": 0, "vm_cross_check_mismatches": 0}
+    if not ctx.get("oracle"):
+        return {"violations": [], "info": info}
+    rng = random.Random(ctx["seed"] + 23)
+    pool = []
+    for k, c in cases("quick", rng):
+        w = c.split()
+        if w and w[0] in VM_OPS and len(w) - 1 == VM_OPS[w[0]][1] and all(re.fullmatch(r"\d+", a) for a in w[1:]):
+            pool.append(c)
+    pool = sorted(set(pool))
+    rng.shuffle(pool)
+    per_op = {}
+    sample = []
+    for c in pool:                       # at most 25 (quick) / 120 (thorough) per op, so that every op is represented
+        o = c.split()[0]
+        if per_op.get(o, 0) < (25 if ctx["tier"] == "quick" else 120):
+            per_op[o] = per_op.get(o, 0) + 1
+            sample.append(c)
+    items = []
+    for i, c in enumerate(sample):
+        w = c.split()
+        fn, ar, fmt = VM_OPS[w[0]]
+        items.append((str(i), "%s %s" % (fn, " ".join(w[1:])), fmt))
+    got, err = vmcross.run(runner.COQ, "From TF Require Import Word MmrIndexGen MmrIndex.", items)
+    if got is None:
+        return {"violations": [{"kind": "vm-cross-check-failed", "detail": err, "no_input": True}], "info": info}
+    want, err, _ = runner.run_lines(ctx["oracle"], [], ["%d %s" % (i, c) for i, c in enumerate(sample)], 600)
+    if want is None:
+        return {"violations": [{"kind": "vm-cross-check-oracle-failed", "detail": err, "no_input": True}], "info": info}
+    viol, bad = [], 0
+    for i, c in enumerate(sample):
+        x, y = want.get(str(i)), got.get(str(i))
+        if x is not None and x.startswith("SPECDIFF"):
+            continue
+        if (x or "").strip() != (y or "").strip():
+            bad += 1
+            if len(viol) < 3:
+                viol.append({"kind": "extraction-cross-check", "case": c, "impl": "extracted oracle: %s" % x,
+                             "model": "Coq vm_compute: %s" % y, "no_input": True,
+                             "why": "the extracted (zarith-mapped) model and the same Gallina term evaluated inside Coq disagree"})
+    info["vm_cross_check_sample"] = len(sample)
+    info["vm_cross_check_ops"] = per_op
+    info["vm_cross_check_mismatches"] = bad
+    return {"violations": viol, "info": info}
